@@ -20,35 +20,35 @@ CHECKS = {
          "Trusts the coercion table in model/spec.go (from the docs); out-of-range numerics are left to C18; doc-silent representations are skipped and counted.",
          "DESIGN.md section 5 C03"),
  "C04": ("exhaustive enumeration of the absence decision table + " + RAPID + "random compositions",
-         "The finite decision table node kind x modifiers x input class x mode x placement is enumerated completely (about 11000 cells), observing required/not_nil issues, the sentinel-prefilled destination and how often each node's recorder test ran; random absence-heavy compositions extend it to deeper nestings, and a third sub-check applies the absence rules to generated records through all six front ends (missing key / parameter / variable, []-suffixed parameters). Exhaustive for the table, exploration beyond.",
+         "The finite decision table node kind x modifiers x input class x mode x placement is enumerated completely (about 11000 cells), observing required/not_nil issues, the sentinel-prefilled destination and how often each node's recorder test ran; random absence-heavy compositions extend it to deeper nestings, and a third sub-check applies the absence rules to generated records through all six front ends (missing key / parameter / variable, []-suffixed parameters, the strings other systems use for \"nothing\", Preprocess wrappers that return nil). Exhaustive for the table, exploration beyond.",
          "Expectation computed by the executable specification of the statement's table; cells whose coercion is undocumented are skipped and counted.",
          "DESIGN.md section 5 C04"),
  "C05": (RAPID + "direct oracle + metamorphic comparison with the catch-free twin schema",
-         "Schemas with catching primitives at random places; (a) no issue at a catching node's path and its destination equals the catch value iff its own pipeline fails (specification), (b) metamorphic non-interference: the same schema without Catch must produce the same issues away from the catching nodes and the same values away from them. Both modes, several runs per case. Exploration.",
-         "No PostTransforms; struct/slice-level tests are data-independent in these cases so that the twin is comparable.",
+         "Schemas with catching primitives at random places; (a) no issue at a catching node's path and its destination equals the catch value iff its own pipeline fails (specification), (b) metamorphic non-interference: the same schema without Catch must produce the same issues away from the catching nodes and the same values (and messages) away from them; further sub-checks add PostTransforms to the caught and the neighbouring nodes (with-transforms-*). Both modes, several runs per case, after a process prelude. Exploration.",
+         "PostTransforms only in the with-transforms sub-checks; no empty schema keys (their issue path coincides with the parent's); struct/slice-level tests are data-independent in these cases so that the twin is comparable.",
          "DESIGN.md section 5 C05"),
  "C09": (RAPID + "metamorphic: permuted schema/input insertion orders x repeated runs must agree; visit orders observed",
          "Each case is built K times with permuted field insertion order and input-map insertion order and run R times; all runs must agree on issues (path, code, type, message), issue-map keys and, on success, the destination; $first must be one of the issues. The visit orders actually taken are observed through recorder tests and reported. Exploration; order coverage is measured, not assumed.",
          "Relies on Go's map iteration randomisation plus insertion-order forcing; excludes constructs that are order-dependent by the documented global PostTransform gating.",
          "DESIGN.md section 5 C09"),
  "C18": ("exhaustive boundary product + " + RAPID + "random magnitudes; exact big-number oracle",
-         "Destination width x source representation x boundary magnitudes enumerated completely, plus random values; the outcome must be a coerce issue or the exact (truncated / correctly rounded) number, decided with math/big. Exhaustive over the listed boundary sets, exploration beyond.",
+         "Destination width x source representation x boundary magnitudes enumerated completely, plus random values; the outcome must be a coerce issue or the exact (truncated / correctly rounded) number, decided with math/big; padded numeric strings, json.Number, near-integer floats, exponents up to 1e60, numbers inside typed maps. Exhaustive over the listed boundary sets, exploration beyond.",
          "Rounding to nearest on float narrowing is accepted as the same number; strings outside plain decimal/exponent syntax are only checked when rejected or exactly modelled.",
          "DESIGN.md section 5 C18"),
  "C06": (RAPID + "wild-value generator (registry of ~120 Go values spliced into valid inputs, hostile JSON / form / query / env text) + exhaustive wild-value x root-kind product; oracle: recover() around Parse",
-         "Well-formed (schema, destination) pairs (all node kinds, >8 fields, keys up to 64 bytes, Preprocess, Custom) are fed Go values in which random subtrees are replaced by values of unusual dynamic types, and documents/strings through every front end (env / form / query values from a pool of hostile short strings: every ASCII punctuation character alone, unbalanced quotes and brackets, escapes); any panic is a violation. The registry x 17 root kinds product is enumerated completely. Exploration (plus native fuzzing of the byte-level front ends in the thorough tier).",
+         "Well-formed (schema, destination) pairs (all node kinds, >8 fields, keys up to 64 bytes, Preprocess, Custom) are fed Go values in which random subtrees are replaced by values of unusual dynamic types, and documents/strings through every front end (chains of executions on one schema, each followed by the process prelude; env / form / query values from a pool of hostile short strings: every ASCII punctuation character alone, unbalanced quotes and brackets, escapes); any panic is a violation. The registry x 17 root kinds product is enumerated completely. Exploration (plus native fuzzing of the byte-level front ends in the thorough tier).",
          "Quantifies over a finite registry of Go types; harness callbacks are nil-safe so an observed panic is zog's; termination guarded by a time limit (exit 2).",
          "DESIGN.md section 5 C06"),
  "C07": (RAPID + "generated call histories (model = same call on cleared pools) with fault injection into the sync.Pools",
-         "Histories of calls (incl. zjson documents, urlencoded bodies through zhttp, and calls that reuse an earlier call's schema OBJECT with another destination type), Collect*/Sanitize*AndCollect of earlier results, forced GC, panicking user callbacks and injection of dirty recycled objects (every exported field junk) into each of the seven pools; after every call the complete observable result (all issue fields, destination, context values seen by callbacks) must equal the result of the same call on freshly cleared pools with a never-used schema object. Exploration over histories; pool contents are owned deterministically through the exported pool variables.",
+         "Histories of calls (incl. zjson documents, urlencoded bodies through zhttp, and calls that reuse an earlier call's schema OBJECT with another destination type), Collect*/Sanitize*AndCollect of earlier results, forced GC, panicking user callbacks and injection of dirty recycled objects (every exported field junk) into each of the seven pools, calls whose single issue comes from a failing PostTransform, Preprocess roots, re-observation of results held from earlier calls; after every call the complete observable result (all issue fields, destination, context values seen by callbacks) must equal the result of the same call on freshly cleared pools with a never-used schema object. Exploration over histories; pool contents are owned deterministically through the exported pool variables.",
          "Only this package imports zog/internals. Dirty objects are limited to shapes reachable through zog's API. Pristine reference computed with internals.ClearPools().",
          "DESIGN.md section 5 C07"),
  "C08": (RAPID + "generated concurrent workloads on shared schema objects under the Go race detector, per-call comparison with sequential results",
-         "Workloads of 8-24 goroutines hammering 3-8 shared schema objects with private data (Go values and zjson documents, per-call formatters, i18n installed with per-call languages in a third of the workloads, results handed back through Collect* or Sanitize*AndCollect whose returned messages must be the call's own, lists that grow from workload to workload), started on COLD library state; the test binary is built with -race: any race report, any call whose issues differ from the executable specification, from a concurrent call of the same input, or from the same call alone afterwards, is a violation. Random schedule sampling amplified by the race detector's happens-before analysis; it cannot show absence of schedule-dependent bugs.",
+         "Workloads of 8-24 goroutines hammering 3-8 shared schema objects with private data (Go values and zjson documents, per-call formatters, i18n installed with per-call languages in a third of the workloads, results handed back through Collect* or Sanitize*AndCollect whose returned messages must be the call's own, lists that grow from workload to workload, schemas whose PostTransform fails), started on COLD library state; the test binary is built with -race: any race report, any call whose issues differ from the executable specification, from a concurrent call of the same input, or from the same call alone afterwards, is a violation. Random schedule sampling amplified by the race detector's happens-before analysis; it cannot show absence of schedule-dependent bugs.",
          "The harness does not own the scheduler; a schedule-dependent failure is reported with the workload and the race report, not a replayable interleaving.",
          "DESIGN.md section 5 C08"),
  "C10": (RAPID + "generated nested schemas x tag sets x front ends; structural invariants on the issue map + path comparison with the specification + sanitizer round trip",
-         "Every returned map is checked for well-formedness (each issue exactly once under its Path key, $root, $first singleton identical to the first issue recorded, no empty lists, nil iff no issue); paths must equal the documented key chain (source tag, zog tag, schema key, [i], IssuePath) through map, zjson, zhttp JSON/form/query and zenv and in Validate; SanitizeMap/List keep keys and order. Further sub-checks: executions whose only issue stems from a PostTransform that returned an error / a wrapped issue / a ZogIssue (post-errors-*), and container-heavy schemas of depth 6 executed on empty object pools (deep-cold-*). Exploration. Two listed open findings are probed and their trigger classes not generated.",
+         "Every returned map is checked for well-formedness (each issue exactly once under its Path key, $root, $first singleton identical to the first issue recorded, no empty lists, nil iff no issue); paths must equal the documented key chain (source tag, zog tag, schema key, [i], IssuePath) through map, zjson, zhttp JSON/form/query and zenv and in Validate; SanitizeMap/List keep keys and order. Further sub-checks: executions whose only issue stems from a PostTransform that returned an error / a wrapped issue / a ZogIssue (post-errors-*), container-heavy schemas of depth 6 executed on empty object pools (deep-cold-*), and chains of up to 40 path segments with long and empty keys (long-paths-*); maps a caller still holds are re-checked after later executions. Exploration. Two listed open findings are probed and their trigger classes not generated.",
          "Expected paths from model/spec.go with the documented tag priority; tag values without dots (commas allowed: the whole tag value is the key).",
          "DESIGN.md section 5 C10"),
  "C11": ("exhaustive catalogue of built-in tests x types x formatter configurations + " + RAPID + "random precedence of formatter levels",
@@ -56,35 +56,35 @@ CHECKS = {
          "Expected codes and param keys from zconst / reference.md (model/preds.go DefaultParams); Bool True/False accept either documented code.",
          "DESIGN.md section 5 C11"),
  "C12": (RAPID + "recorder callbacks everywhere; invariants over the totally ordered event log of one execution",
-         "Spec-free invariants over the log of callback invocations and issue creations: argument contract (value for primitive tests, non-nil pointer with the address of the governed destination otherwise, computed by reflection), ctx.Get equals exactly this call's WithCtxValue, PostTransform discipline (declaration order, at most once, stop at first error, never after an issue, all on success, also for a node that used its Catch value, error wrapped at the node's path even when the returned error wraps or joins a ZogIssue), Preprocess failure (Parse: string-typed and any-typed functions; Validate: pointer-typed functions) silences the wrapped schema and every implied Preprocess issue is reported. One schema object placed at several positions with different destination types is covered by a dedicated sub-check. Both modes, all nestings. Exploration.",
+         "Spec-free invariants over the log of callback invocations and issue creations: argument contract (value for primitive tests, non-nil pointer with the address of the governed destination otherwise, computed by reflection), ctx.Get equals exactly this call's WithCtxValue, PostTransform discipline (declaration order, at most once, stop at first error, never after an issue, all on success, also for a node that used its Catch value, error wrapped at the node's path even when the returned error wraps or joins a ZogIssue), Preprocess failure (Parse: string-typed and any-typed functions; Validate: pointer-typed functions) silences the wrapped schema and every implied Preprocess issue is reported. One schema object placed at several positions with different destination types, callbacks on user-defined named primitive types, and sibling derivations (Pick/Omit/Extend made from the schema and given their own callbacks, which must never run) are covered by dedicated sub-checks. Both modes, all nestings. Exploration.",
          "Recorders are supplied by the harness and never panic; tests carry no Message so every issue passes the logging execution formatter.",
          "DESIGN.md section 5 C12"),
  "C13": (RAPID + "differential: Validate(&v) versus Parse(toMap(v), &fresh) on fully populated values",
-         "For generated schemas (no Preprocess) and fully populated typed values, validating in place and parsing the same value presented as a map must report the same (path, code, type, message) multiset and leave equal values; a second sub-check places one failing PostTransform (error or ZogIssue) at a random node. Exploration.",
+         "For generated schemas (no Preprocess) and fully populated typed values, validating in place and parsing the same value presented as a map must report the same (path, code, type, message) multiset and leave equal values; a second sub-check places one failing PostTransform (error or ZogIssue) at a random node; a third uses linear (single-path) schemas with infinities and extreme values. Exploration.",
          "Values compared only where the documented global PostTransform gating makes them order-independent.",
          "DESIGN.md section 5 C13"),
  "C14": (RAPID + "one logical record rendered through six front ends; each compared with the specification and all with each other",
-         "A generated logical record and schema with random json/form/query/env/zog tags are rendered as Go map, zjson document, zhttp JSON body, form, query string and environment; each rendering must match the specification for the record as that front end presents it and all renderings must agree on success, number of issues and destination. Exploration. Three listed open findings are probed and their trigger classes not generated.",
+         "A generated logical record and schema with random json/form/query/env/zog tags are rendered as Go map, zjson document, zhttp JSON body, form, query string and environment; each rendering must match the specification for the record as that front end presents it and all renderings must agree on success, number of issues and destination; a sub-check sends large documents (hundreds of fields / long lists / long multibyte strings) through the document-carrying front ends, with bodies of known, unknown and chunked length. Exploration. Three listed open findings are probed and their trigger classes not generated.",
          "Renderings a front end cannot express are skipped per front end and counted; strings are valid UTF-8 without edge white space.",
          "DESIGN.md section 5 C14"),
  "C15": ("exhaustive product method x Content-Type x body x query (about 36 000 requests) + " + RAPID + "random requests; source sentinels and recording coercers",
-         "Every request of the product (plus reduced products with a z.Ptr(z.Struct) root and with requests a middleware has already parsed through r.ParseForm / r.FormValue, incl. well-formed multipart bodies; Content-Type parameters of any shape; every case starts after an earlier invalid request whose issues were collected) is sent through zhttp.Request into a schema whose coercers record the raw value handed to each field; the expected source follows the statement's dispatch table (net/http decides which methods read a form body); undecodable bodies must give exactly one invalid_json/invalid_form issue at $root with the schema not run and the sentinel destination untouched; {} means all absent; repeated or []-suffixed parameters are lists, single ones strings, missing ones absent. Exhaustive over the product, exploration for random fragments.",
+         "Every request of the product (plus reduced products with a z.Ptr(z.Struct) root and with requests a middleware has already parsed through r.ParseForm / r.FormValue, incl. well-formed multipart bodies; Content-Type parameters of any shape; every case starts after an earlier invalid request whose issues were collected) is sent through zhttp.Request into a schema whose coercers record the raw value handed to each field; the expected source follows the statement's dispatch table (net/http decides which methods read a form body); undecodable bodies must give exactly one invalid_json/invalid_form issue at $root with the schema not run and the sentinel destination untouched; {} means all absent; repeated or []-suffixed parameters are lists, single ones strings, missing ones absent; schemas without fields still decode the request; bodies of unknown length (chunked, wrapped readers) are read to the end. Exhaustive over the product, exploration for random fragments.",
          "Content-Type spellings outside the documented form and JSON followed by trailing data are outside the domain (skipped).",
          "DESIGN.md section 5 C15"),
  "C16": (RAPID + "model-based state machine over derivation histories; every live schema re-probed against a hand-written equivalent after every step",
-         "Histories of base (a sixth widened to 9 and more fields) / Pick / Omit (also removing nothing) / Extend / Merge / later TestFunc / PostTransform over a growing set of live schemas; a model (field map, test ids, PostTransform ids) is updated with the documented set semantics and after every step every live schema must behave like a schema written out by hand from its model (issues, destination, callback sequence). Exploration over histories.",
+         "Histories of base (a sixth widened to 9 and more fields) / Pick / Omit (also removing nothing) / Extend / Merge / later TestFunc / PostTransform (with test options) / hooks-only bases without fields over a growing set of live schemas; a model (field map, test ids, PostTransform ids) is updated with the documented set semantics and after every step every live schema must behave like a schema written out by hand from its model (issues, destination, callback sequence). Exploration over histories.",
          "Keys picked/omitted are the operand's own keys.",
          "DESIGN.md section 5 C16"),
  "C17": (RAPID + "random builder chains applied call by call, read literally into a model node and compared with the specification; shared schema objects; WithCoercer locality catalogue",
-         "Random chains of Required/Optional/Default/Catch/Not()/tests/test options on real schemas of 8 kinds; issues compared as multisets of (path, code, type, message class, params), destinations on success; structs reusing ONE schema object at 2-3 places are compared with the specification of independent copies; a finite catalogue and a generated sub-check (a third of the nodes of every kind carry their own coercer) check that WithCoercer acts on its own schema only (siblings, through Ptr, slice vs element, nested). Exploration.",
+         "Random chains of Required/Optional/Default/Catch/Not()/tests/test options on real schemas of 8 kinds; issues compared as multisets of (path, code, type, message class, params), destinations on success; structs reusing ONE schema object at 2-3 places are compared with the specification of independent copies; a finite catalogue and a generated sub-check (a third of the nodes of every kind carry their own coercer) check that WithCoercer acts on its own schema only (siblings, through Ptr, slice vs element, nested); Message / MessageFunc options in either order, strict-mode Bool codes, tests with empty Params. Exploration.",
          "Not() only generated directly before a negatable test (what the NotStringSchema interface allows).",
          "DESIGN.md section 5 C17"),
  "C19": (RAPID + "execution histories with deep snapshots of inputs and schema-owned values, destination scribbling, verbatim repeats",
-         "Histories of 2-6 executions on one schema: the input's deep snapshot and the snapshots of every reference-typed value the schema was given (slice defaults, OneOf lists) must be unchanged after each call and after the harness overwrites the returned destination (incl. spare slice capacity); a verbatim repeated execution must give the same result; Validate without Default/Catch/PostTransform leaves the value unchanged. Inputs include Go values of the destination's own type; a second sub-check treats requests handed to zhttp as input data (parsed form unchanged, same result when parsed again). Exploration.",
+         "Histories of 2-6 executions on one schema: the input's deep snapshot and the snapshots of every reference-typed value the schema was given (slice defaults, OneOf lists) must be unchanged after each call and after the harness overwrites the returned destination (incl. spare slice capacity); a verbatim repeated execution must give the same result; Validate without Default/Catch/PostTransform leaves the value unchanged. Inputs include Go values of the destination's own type; a second sub-check treats requests handed to zhttp as input data (parsed form unchanged, same result when parsed again); per-execution formatters are markers that must not survive into the next execution. Exploration.",
          "Schema-owned values are observed through references kept by the harness.",
          "DESIGN.md section 5 C19"),
  "C20": ("exhaustive sweeps over small alphabets/ranges + " + RAPID + "random strings and grammar-derived subjects; independent reference predicates",
-         "Single-test schemas in both modes: rune-class tests over every rune U+0000..U+02FF and class-edge pairs, length tests over n x byte-length grid, numeric comparisons over all pairs of boundary sets (incl. NaN, Inf, -0), slice and time tests, the same tests on user-defined named types (StringSchema[T], NumberSchema[T], BoolSchema[T]) with Required on and off, pointer-element slices with pointer needles, random prefix/suffix/contains/oneof/match, and Email/UUID/URL over generated grammar members and single-edit near misses, every byte at every position class of the Email and UUID grammars, an enumerated product of URL shapes (port, path, query, fragment), time comparisons over instants from year 1 to 9999; issue present iff the reference predicate is false. Exhaustive for the sweeps, exploration for the random parts.",
+         "Single-test schemas in both modes: rune-class tests over every rune U+0000..U+02FF and class-edge pairs, length tests over n x byte-length grid, numeric comparisons over all pairs of boundary sets (incl. NaN, Inf, -0), slice and time tests, the same tests on user-defined named types (StringSchema[T], NumberSchema[T], BoolSchema[T]) with Required on and off, pointer-element slices with pointer needles, random prefix/suffix/contains/oneof/match, and Email/UUID/URL over generated grammar members and single-edit near misses, every byte at every position class of the Email and UUID grammars, an enumerated product of URL shapes (port, path, query, fragment), time comparisons over instants from year 1 to 9999, the same kind of test twice on one node, failing elements beside a list-level test; issue present iff the reference predicate is false. Exhaustive for the sweeps, exploration for the random parts.",
          "Reference predicates in model/preds.go (hand-written recognisers, not regexes shared with zog); URL only over the certain classes; UUID version nibble not asserted.",
          "DESIGN.md section 5 C20"),
 }
